@@ -54,4 +54,187 @@ theorem pjPairs_useFirst {α} (m : List (Str × α)) : ∀ items : List (Str × 
       congr 2
       exact congrArg _ (dedupeFirst_congr _ _ (fun x => by simp [or_comm]) _)
 
+/-! ### reject -/
+
+theorem any_key_append {α} (items : List (Str × α)) (k : Str) (v : α) (x : Str) :
+    (items ++ [(k, v)]).any (·.1 == x) = (items.any (·.1 == x) || (k == x)) := by
+  simp [List.any_append]
+
+theorem beq_str_comm (a b : Str) : (a == b) = (b == a) := by
+  by_cases h : a = b
+  · subst h; rfl
+  · have h' : ¬ b = a := fun e => h e.symm
+    rw [beq_eq_false_iff_ne.mpr h, beq_eq_false_iff_ne.mpr h']
+
+theorem any_items_append {α} (l items : List (Str × α)) (k : Str) (v : α) :
+    (l.any fun kv => (items ++ [(k, v)]).any (·.1 == kv.1)) =
+      ((l.any fun kv => items.any (·.1 == kv.1)) || (l.any fun kv => kv.1 == k)) := by
+  induction l with
+  | nil => rfl
+  | cons a r ih =>
+    rw [List.any_cons, List.any_cons, List.any_cons, ih, any_key_append, beq_str_comm k a.1]
+    cases List.any items (·.1 == a.1) <;> cases (a.1 == k) <;>
+      cases (List.any r fun kv => List.any items (·.1 == kv.1)) <;> simp
+
+theorem pjPairs_reject {α} (m : List (Str × α)) : ∀ items : List (Str × α),
+    pjPairs .reject items m =
+      if ((fixKeys m).any fun kv => items.any (·.1 == kv.1)) || hasDupKeys (fixKeys m)
+      then .error .FOJS0003 else .ok (items ++ fixKeys m) := by
+  induction m with
+  | nil => intro items; simp [pjPairs, fixKeys, hasDupKeys]
+  | cons kv t ih =>
+    intro items
+    obtain ⟨k, v⟩ := kv
+    have e2 : fixKeys ((k, v) :: t) = (pjString k, v) :: fixKeys t := rfl
+    rw [e2]
+    simp only [pjPairs, hasDupKeys, List.any_cons]
+    by_cases hin : items.any (·.1 == pjString k) = true
+    · simp [hin]
+    · have hin' : items.any (·.1 == pjString k) = false := Bool.eq_false_iff.mpr hin
+      simp only [hin', Bool.false_eq_true, if_false, Bool.false_or]
+      rw [dictSet_fresh _ _ _ hin', ih, any_items_append]
+      simp only [List.append_assoc, List.cons_append, List.nil_append]
+      cases (List.any (fixKeys t) fun kv => List.any items (·.1 == kv.1)) <;>
+        cases (List.any (fixKeys t) fun kv => kv.1 == pjString k) <;>
+        cases hasDupKeys (fixKeys t) <;> simp
+
+/-! ### use-last -/
+
+def dictStep {α} (items : List (Str × α)) (kv : Str × α) : List (Str × α) := dictSet kv.1 kv.2 items
+
+theorem pjPairs_useLast_fold {α} (m : List (Str × α)) : ∀ items : List (Str × α),
+    pjPairs .useLast items m = .ok ((fixKeys m).foldl dictStep items) := by
+  induction m with
+  | nil => intro items; rfl
+  | cons kv t ih =>
+    intro items
+    obtain ⟨k, v⟩ := kv
+    have e2 : fixKeys ((k, v) :: t) = (pjString k, v) :: fixKeys t := rfl
+    rw [e2]
+    simp only [pjPairs, List.foldl_cons, dictStep]
+    split <;> exact ih _
+
+/-- pairwise distinct -/
+def nd : List Str → Prop
+  | [] => True
+  | k :: t => k ∉ t ∧ nd t
+
+theorem nd_append_single (ks : List Str) (k : Str) (h : nd ks) (hk : k ∉ ks) : nd (ks ++ [k]) := by
+  induction ks with
+  | nil => exact ⟨by simp, trivial⟩
+  | cons a t ih =>
+    have hka : k ≠ a := fun e => hk (by simp [e])
+    have hkt : k ∉ t := fun e => hk (by simp [e])
+    exact ⟨by simp [h.1, Ne.symm hka], ih h.2 hkt⟩
+
+theorem lastValue_same {α} (k : Str) (v v0 : α) (t : List (Str × α)) :
+    lastValue k v ((k, v0) :: t) = lastValue k v0 t := by
+  unfold lastValue
+  have : ((k, v0) :: t).filter (·.1 == k) = (k, v0) :: t.filter (·.1 == k) := by simp
+  rw [this, List.getLast?_cons]
+  cases (t.filter (·.1 == k)).getLast? <;> rfl
+
+theorem lastValue_other {α} (k k0 : Str) (v v0 : α) (t : List (Str × α)) (h : k0 ≠ k) :
+    lastValue k v ((k0, v0) :: t) = lastValue k v t := by
+  unfold lastValue
+  have : ((k0, v0) :: t).filter (·.1 == k) = t.filter (·.1 == k) := by simp [h]
+  rw [this]
+
+theorem dictSet_present {α} (k : Str) (v : α) : ∀ items : List (Str × α), k ∈ items.map (·.1) →
+    nd (items.map (·.1)) → dictSet k v items = items.map (fun kv => if kv.1 = k then (k, v) else kv) := by
+  intro items
+  induction items with
+  | nil => intro h; simp at h
+  | cons a t ih =>
+    intro hk hnd
+    obtain ⟨k', v'⟩ := a
+    simp only [List.map_cons] at hk hnd
+    by_cases he : k' = k
+    · subst he
+      have hnot : k' ∉ t.map (·.1) := hnd.1
+      have : t.map (fun kv => if kv.1 = k' then (k', v) else kv) = t := by
+        have : ∀ kv ∈ t, (if kv.1 = k' then (k', v) else kv) = kv := by
+          intro kv hkv
+          have : kv.1 ≠ k' := fun e => hnot (List.mem_map.mpr ⟨kv, hkv, e⟩)
+          simp [this]
+        rw [List.map_congr_left this]; simp
+      simp [dictSet, this]
+    · have hk' : k ∈ t.map (·.1) := by
+        simp only [List.mem_cons] at hk
+        rcases hk with hk | hk
+        · exact absurd hk.symm he
+        · exact hk
+      simp [dictSet, he, ih hk' hnd.2]
+
+theorem dedupeLast_congr {α} (s1 s2 : List Str) (h : ∀ x, x ∈ s1 ↔ x ∈ s2) (m : List (Str × α)) :
+    dedupeLast s1 m = dedupeLast s2 m := by
+  induction m generalizing s1 s2 with
+  | nil => rfl
+  | cons kv t ih =>
+    obtain ⟨k, v⟩ := kv
+    simp only [dedupeLast, h k]
+    split
+    · exact ih s1 s2 h
+    · rw [ih (k :: s1) (k :: s2) (fun x => by simp [h x])]
+
+def updLast {α} (items t : List (Str × α)) : List (Str × α) :=
+  items.map fun kv => (kv.1, lastValue kv.1 kv.2 t)
+
+theorem foldl_dictStep {α} (t : List (Str × α)) : ∀ items : List (Str × α), nd (items.map (·.1)) →
+    t.foldl dictStep items = updLast items t ++ dedupeLast (items.map (·.1)) t := by
+  induction t with
+  | nil =>
+    intro items _
+    simp only [List.foldl_nil, updLast, dedupeLast, List.append_nil]
+    have : ∀ kv ∈ items, (kv.1, lastValue kv.1 kv.2 ([] : List (Str × α))) = kv := by
+      intro kv _; rfl
+    rw [List.map_congr_left this]; simp
+  | cons kv0 t ih =>
+    intro items hnd
+    obtain ⟨k0, v0⟩ := kv0
+    simp only [List.foldl_cons, dictStep]
+    by_cases hin : k0 ∈ items.map (·.1)
+    · have hds := dictSet_present k0 v0 items hin hnd
+      have hkeys : (dictSet k0 v0 items).map (·.1) = items.map (·.1) := by
+        rw [hds, List.map_map]
+        apply List.map_congr_left
+        intro kv _
+        by_cases h : kv.1 = k0 <;> simp [h]
+      rw [ih _ (by rw [hkeys]; exact hnd), hkeys]
+      simp only [dedupeLast, hin, if_true]
+      congr 1
+      rw [hds]
+      simp only [updLast, List.map_map]
+      apply List.map_congr_left
+      intro kv _
+      by_cases h : kv.1 = k0
+      · simp only [Function.comp, h, if_true]
+        rw [← h, lastValue_same]
+      · simp only [Function.comp, h, if_false]
+        rw [lastValue_other kv.1 k0 kv.2 v0 t (fun e => h e.symm)]
+    · have hany : items.any (·.1 == k0) = false := by
+        apply Bool.eq_false_iff.mpr
+        intro h
+        obtain ⟨x, hx, hxe⟩ := List.any_eq_true.mp h
+        exact hin (List.mem_map.mpr ⟨x, hx, by simpa using hxe⟩)
+      rw [dictSet_fresh _ _ _ hany]
+      have hnd' : nd ((items ++ [(k0, v0)]).map (·.1)) := by
+        simp only [List.map_append, List.map_cons, List.map_nil]
+        exact nd_append_single _ _ hnd hin
+      rw [ih _ hnd']
+      simp only [dedupeLast, hin, if_false, updLast, List.map_append, List.map_cons, List.map_nil,
+        List.append_assoc, List.cons_append, List.nil_append]
+      congr 1
+      · apply List.map_congr_left
+        intro kv hkv
+        have : k0 ≠ kv.1 := fun e => hin (List.mem_map.mpr ⟨kv, hkv, e.symm⟩)
+        rw [lastValue_other kv.1 k0 kv.2 v0 t this]
+      · congr 1
+        exact dedupeLast_congr _ _ (fun x => by simp [or_comm]) _
+
+theorem pjPairs_useLast {α} (m : List (Str × α)) :
+    pjPairs .useLast [] m = .ok (dedupeLast [] (fixKeys m)) := by
+  rw [pjPairs_useLast_fold, foldl_dictStep _ [] trivial]
+  simp [updLast]
+
 end EPV.Json
